@@ -750,3 +750,9 @@ Proof.
   destruct (String.eqb tag "") eqn:E2; [discriminate|].
   right. apply Hex. apply String.eqb_neq. exact E2.
 Qed.
+
+(** The verdict with reported tags is the verdict with the model's tags when nothing is
+    reported ([spec_ok_reported] only replaces where the tag strings come from). *)
+Lemma spec_ok_reported_nil root sb r o sb' :
+  spec_ok_reported [] [] root sb r o sb' = spec_ok root sb r o sb'.
+Proof. reflexivity. Qed.
